@@ -101,8 +101,14 @@ def _rekey_case(bi, route, v, dst_state, prov, sib, payload):
                 s.fs.put_dir("/p/workspace/" + refs.canon_id(new))
             elif dst_state == 3:
                 s.fs.put("/p/workspace/" + refs.canon_id(new), b"a regular file occupies the destination path")
+            elif dst_state == 5:
+                # a directory with a document and data but WITHOUT state point file (a job whose state point file was lost: repair() could restore it)
+                s.fs.put("/p/workspace/" + refs.canon_id(new) + "/signac_job_document.json", b'{"precious": 1}')
+                s.fs.put("/p/workspace/" + refs.canon_id(new) + "/nested/deeper/result.bin", b"RESULT")
         elif dst_state not in (0, 4):
             return None  # destination states only matter when the id changes
+        if dst_state == 5 and src_uninit:
+            return None
         before = s.fs.snapshot("/p/workspace")
         if prov == 0:
             s.open(0, "/p", base)
@@ -126,7 +132,7 @@ def _rekey_case(bi, route, v, dst_state, prov, sib, payload):
             _ = s.handles[0].jobs[1].path
             if not src_uninit:
                 _ = s.handles[0].jobs[1].document
-        blocked = new is not None and ws.key(new) != ws.key(base) and dst_state == 3
+        blocked = new is not None and ws.key(new) != ws.key(base) and dst_state in (3, 5)
         if blocked:
             # the directory cannot be moved onto a regular file: the change must fail with an OSError and roll back completely
             job = s.handles[0].jobs[-1]
@@ -171,10 +177,10 @@ def _rekey_case(bi, route, v, dst_state, prov, sib, payload):
 
 
 def h_rekey(bi: int, route: int, v: int, dst_state: int, prov: int, sib: int, payload: int):
-    assert 0 <= bi < 6 and 0 <= route <= 10 and 0 <= v <= 1 and 0 <= dst_state <= 4 and 0 <= prov <= 2 and 0 <= sib <= 3 and 0 <= payload <= 3 and part_ok(route)
+    assert 0 <= bi < 6 and 0 <= route <= 10 and 0 <= v <= 1 and 0 <= dst_state <= 5 and 0 <= prov <= 2 and 0 <= sib <= 3 and 0 <= payload <= 3 and part_ok(route)
     assert tier() != "quick" or (payload in (0, 3) and prov != 2)
     fresh_path()
-    bi, route, v, dst_state, prov, sib, payload = ci(bi, 0, 5), ci(route, 0, 10), ci(v, 0, 1), ci(dst_state, 0, 4), ci(prov, 0, 2), ci(sib, 0, 3), ci(payload, 0, 3)
+    bi, route, v, dst_state, prov, sib, payload = ci(bi, 0, 5), ci(route, 0, 10), ci(v, 0, 1), ci(dst_state, 0, 5), ci(prov, 0, 2), ci(sib, 0, 3), ci(payload, 0, 3)
     with nt():
         r = _rekey_case(bi, route, v, dst_state, prov, sib, payload)
     if r is None:
@@ -369,6 +375,55 @@ def h_assign_alias(bi: int, v: int, mut: int, same_session: bool):
     assert r[0]
 
 
+# ------------------------------------------------------------------------------------------------ refused change, then a successful one
+def _refused_then_case(kind, who1, who2, prov):
+    """a job handle and a shallow copy; a state point change through one of them is REFUSED (destination exists / invalid key /
+    update_statepoint collision); then a change through one of them succeeds: BOTH handles describe the new job, and a document write through
+    the other one lands in it"""
+    s = ws.Sim(paths=("/p",))
+    try:
+        s.add_job("/p", {"a": 0}, doc={"k": 1}, files={"f": b"F"})
+        s.add_job("/p", {"a": 1}, doc={"dst": 1})
+        if prov == 0:
+            s.open(0, "/p", {"a": 0})
+        else:
+            s.restart("/p")
+            s.open(0, "/p", {"a": 0}, by_id=True)
+        s.apply(0, "copy", "copy")
+        h = s.handles[0]
+
+        def through(who):
+            if (who == 0) != (h.jobs[-1] is first):
+                h.jobs.reverse()
+        first = h.jobs[0]
+        through(who1)
+        if kind == 0:
+            ok = s.apply(0, "sp_assign", {"a": 1})
+        elif kind == 1:
+            ok = s.apply(0, "sp_assign_bad", {"a": 2, "b.c": 3}, "InvalidKeyError")
+        else:
+            ok = s.apply(0, "sp_update", {"a": 1}, True)
+        ok = ok and s.agree("/p") and s.handles_follow(0)
+        through(who2)
+        ok = ok and s.apply(0, "sp_set", "a", 2) and s.agree("/p") and s.handles_follow(0)
+        through(1 - who2)
+        ok = ok and s.apply(0, "doc_set", "late", 1) and s.agree("/p") and s.handles_follow(0)
+        errs = list(s.errors)
+    finally:
+        s.close()
+    return ok, errs
+
+
+def h_refused_then(kind: int, who1: int, who2: int, prov: int):
+    assert 0 <= kind <= 2 and 0 <= who1 <= 1 and 0 <= who2 <= 1 and 0 <= prov <= 1
+    fresh_path()
+    kind, who1, who2, prov = ci(kind, 0, 2), ci(who1, 0, 1), ci(who2, 0, 1), ci(prov, 0, 1)
+    with nt():
+        r = _refused_then_case(kind, who1, who2, prov)
+    reached()
+    assert r[0]
+
+
 # ------------------------------------------------------------------------------------------------ E4: clone of a job that contains symbolic links
 def _clone_links_case(lk, nested, then):
     """Project.clone on the real file system, job payload with a symbolic link (absolute into the job itself / relative / to a file
@@ -451,6 +506,7 @@ HARNESSES = [
     dict(name="h_rekey", twin="h_rekey__reach", timeout=(600, 1500), parts=(11, 11)),
     dict(name="h_move_clone", timeout=(400, 900), parts=(4, 4)),
     dict(name="h_clone_links", timeout=(300, 600), unblock=True),
+    dict(name="h_refused_then", timeout=(300, 600)),
     dict(name="h_update_sp", timeout=(300, 600)),
 ]
 
